@@ -360,6 +360,89 @@ def impl_blif_run(text, merge, igroups, ogroups, inss, clock_name='clk'):
     return trace, block
 
 
+
+# ----------------------------------------------------------------------------- names reserved by PyRTL
+def reserved_name(nm):
+    """PyRTL refuses / reserves these for its own wires: clk, tmp*, const_* (documented)"""
+    base = re.sub(r'\[[0-9]+\]$', '', nm)
+    return base == 'clk' or base.startswith('tmp') or base.startswith('const_')
+
+
+def rename_top(models, mp):
+    """the same netlist with the top model's signals renamed through mp (whole names)"""
+    top = models[0]
+    f = lambda x: None if x is None else mp.get(x, x)
+    cmds = []
+    for c in top.cmds:
+        if c[0] == 'names':
+            cmds.append(('names', [f(x) for x in c[1]], c[2]))
+        elif c[0] == 'latch':
+            cmds.append(('latch', f(c[1]), f(c[2]), c[3]))
+        elif c[0] == 'flop':
+            cmds.append(('flop', c[1]) + tuple(f(x) for x in c[2:]))
+        else:
+            cmds.append(('subckt', c[1], [(fo, f(a)) for fo, a in c[2]]))
+    t2 = Model(top.name, top.mid, [f(x) for x in top.inputs], [f(x) for x in top.outputs], cmds)
+    t2.clock, t2.alias = top.clock, top.alias
+    return [t2] + list(models[1:])
+
+
+def unreserve_ports(models):
+    """ports of the top model whose names PyRTL reserves -> plain names (internal names kept); None if no such port"""
+    top = models[0]
+    mp = {}
+    for nm in top.inputs + top.outputs:
+        if reserved_name(nm) and nm not in (top.clock, top.alias) and nm not in mp:
+            base = re.sub(r'\[[0-9]+\]$', '', nm)
+            mp[nm] = 'port%d_%s' % (len(mp), re.sub(r'\W', '_', base)[:6]) + nm[len(base):]
+    return rename_top(models, mp) if mp else None
+
+
+def blif_attempt(models, merge, bits):
+    """import + simulate; bits = per-cycle list of per-input bit values (top.inputs order). -> (trace|None, err, expected)"""
+    top = models[0]
+    lib = {m.name: m for m in models}
+    ig, og = port_groups(top.inputs, merge), port_groups(top.outputs, merge)
+    pos = {nm: k for k, nm in enumerate(top.inputs)}
+    inss = [[sum(row[pos[nm]] << j for j, nm in enumerate(names)) for _, names in ig] for row in bits]
+    expected = py_blif_run(lib, top, og, ig, inss)
+    text = blif_text(models, top)
+    try:
+        try:
+            got, _ = impl_blif_run(text, merge, ig, og, inss, top.clock)
+        finally:
+            if top.clock != 'clk' or any(m.alias for m in models):
+                HISTORY.append({'blif': text, 'clock_name': top.clock, 'merge_io_vectors': merge})
+        return got, None, expected
+    except Exception as e:
+        return None, '%s: %s' % (type(e).__name__, ' '.join(str(e).split())[:160]), expected
+
+
+def port_name_is_the_cause(models, merge, inss):
+    """does the failing netlist stop failing when ONLY its reserved-named ports get plain names?"""
+    alt = unreserve_ports(models)
+    if alt is None:
+        return False
+    top = models[0]
+    ig = port_groups(top.inputs, merge)
+    pos = {nm: k for k, nm in enumerate(top.inputs)}
+    bits = []
+    for vals in inss:
+        row = [0] * len(top.inputs)
+        for (_, names), v in zip(ig, vals):
+            for j, nm in enumerate(names):
+                row[pos[nm]] = (v >> j) & 1
+        bits.append(row)
+    got, err, expected = blif_attempt(alt, merge, bits)
+    return got is not None and got == expected
+
+
+PORT_SIG = 'import:port-has-reserved-name'
+PORT_WHAT = ('a top-level port (INPUT/OUTPUT) of the imported file is called clk / tmp<N> / const_*, names PyRTL '
+             'reserves for itself; ports must keep their file names, so the import or the simulation is refused '
+             '(Clock signals should never be explicit / Duplicate wire names); the same netlist with plain port names '
+             'imports correctly')
+
 def run_blif_case(ctx, fam, key, models, inss, merge, fuel=None, nontrivial=None, sample=False, extra=None,
                   reject_ok=None):
     """returns a pending-case dict (Coq results are filled in later, in one batch)"""
@@ -387,6 +470,10 @@ def run_blif_case(ctx, fam, key, models, inss, merge, fuel=None, nontrivial=None
     except Exception as e:  # the importer / simulator rejected a file of the supported subset
         if reject_ok is not None:     # outside the supported subset: rejection is acceptable, count and skip
             ctx.count('rejected_outside_subset', '%s(%s)' % (reject_ok, type(e).__name__))
+            return None
+        if port_name_is_the_cause(models, merge, inss):
+            ctx.spec_violation(PORT_SIG, 'input_from_blif: ' + PORT_WHAT + ' [%s: %s]' % (
+                type(e).__name__, ' '.join(str(e).split())[:120]), dict(rep, expected=expected))
             return None
         ctx.spec_violation('blif:%s:rejected' % fam, 'input_from_blif/Simulation raised %s: %s on a supported BLIF file'
                            % (type(e).__name__, str(e)[:200]), dict(rep, expected=expected))
@@ -937,8 +1024,7 @@ def gen_session_model(rng, i):
     alias = rng.choice([None, None, 'c', 'ck', 'gclk', 'phi', 'x'])
     if alias == clock:
         alias = None
-    # ('clk' itself can never be data: PyRTL refuses any wire of that name, 'Clock signals should never be explicit')
-    free = [n for n in NAME_POOL if n not in (clock, alias, 'clk')]
+    free = [n for n in NAME_POOL if n not in (clock, alias)]
     ins = rng.sample(free, rng.randint(1, min(3, len(free)))) + ['a', 'b'][:rng.randint(1, 2)]
     rng.shuffle(ins)
     cmds, outs, models = [], [], []
@@ -1293,12 +1379,9 @@ def live_tmp_counter():
     return int(pyrtl.WireVector(bitwidth=1).name[3:])
 
 
-def name_plan(rng, b):
-    """signal -> (category, parameter); applied by apply_names right before an import"""
-    sigs = []
-    for x in b['inputs'] + [d for d, _, _ in b['gates']]:
-        if x not in sigs:
-            sigs.append(x)
+def name_plan(rng, sigs, allow_clk=True):
+    """signal -> (category, parameter); turned into names by make_names right before an import"""
+    sigs = list(sigs)
     rng.shuffle(sigs)
     plan = {}
     for k, x in enumerate(sigs):
@@ -1308,22 +1391,23 @@ def name_plan(rng, b):
         elif r < 0.45:
             plan[x] = ('suffix_reg', rng.choice(sigs[:k]))
         elif r < 0.55:
-            plan[x] = ('suffix', (rng.choice(sigs[:k]), rng.choice(('_i', '_next', '[0]', '_reg_reg', '_'))))
+            plan[x] = ('suffix', (rng.choice(sigs[:k]), rng.choice(('_i', '_next', '[0]x', '_reg_reg', '_', '_src_reg'))))
         elif r < 0.70:
             plan[x] = ('tmp', rng.randint(1, 40))
         elif r < 0.75:
             plan[x] = ('tmp_small', rng.randint(0, 30))
         elif r < 0.83:
             plan[x] = ('const', rng.choice(('const_0_0', 'const_1_1', 'const_%d_1' % rng.randint(0, 60), 'const_')))
-        elif r < 0.97:
+        elif r < 0.97 or not allow_clk:
             plan[x] = ('keyword', rng.choice(KEYWORD_NAMES))
         else:
             plan[x] = ('clk', None)
     return sigs, plan
 
 
-def apply_names(b, sigs, plan, only=None):
-    """rename the netlist; categories outside `only` keep their plain names"""
+def make_names(sigs, plan, only=None, ports=(), plain_reserved_ports=False):
+    """signal -> name.  Categories outside `only` keep their plain names; with plain_reserved_ports the
+    ports (and only they) whose hostile name would be reserved by PyRTL keep their plain names too."""
     counter = live_tmp_counter()
     ren, used = {}, set()
     for x in sigs:
@@ -1340,16 +1424,30 @@ def apply_names(b, sigs, plan, only=None):
             nm = 'tmp%d' % (counter + par)
         elif cat == 'tmp_small':
             nm = 'tmp%d' % par
-        elif cat == 'const':
-            nm = par
-        elif cat == 'keyword':
+        elif cat in ('const', 'keyword'):
             nm = par
         else:
             nm = 'clk'
+        if plain_reserved_ports and x in ports and reserved_name(nm):
+            nm = x
         while nm in used or (nm in sigs and nm != x):
             nm += '_'
         used.add(nm)
         ren[x] = nm
+    return ren, counter
+
+
+def bench_sigs(b):
+    sigs = []
+    for x in b['inputs'] + [d for d, _, _ in b['gates']]:
+        if x not in sigs:
+            sigs.append(x)
+    return sigs
+
+
+def apply_names(b, sigs, plan, only=None, plain_reserved_ports=False):
+    ren, counter = make_names(sigs, plan, only, ports=set(b['inputs'] + b['outputs']),
+                              plain_reserved_ports=plain_reserved_ports)
     return {'inputs': [ren[x] for x in b['inputs']], 'outputs': [ren[x] for x in b['outputs']],
             'gates': [(ren[d], g, [ren[y] for y in srcs]) for d, g, srcs in b['gates']]}, counter
 
@@ -1374,7 +1472,7 @@ def run_bench_names(ctx):
                      'gates': [('Q%d' % j, 'DFF', ['Q%d' % (j - 1) if j else 'G0']) for j in range(k)]
                      + [('n0', rng.choice(NARY), ['Q%d' % (k - 1), 'G1'])]}
             rng.shuffle(plain['gates'])
-        sigs, plan = name_plan(rng, plain)
+        sigs, plan = name_plan(rng, bench_sigs(plain))
         nin = len(plain['inputs'])
         inss = [[rng.randint(0, 1) for _ in range(nin)] for _ in range(8)]
         expected = py_bench_run(plain, inss)
@@ -1392,18 +1490,28 @@ def run_bench_names(ctx):
             plain_got, plain_err = bench_attempt(plain, inss)
             reports = []
             if plain_got == expected:
-                for c in cats:
-                    bc, cnt = apply_names(plain, sigs, plan, only=(c,))
-                    g, e1 = bench_attempt(bc, inss)
-                    if g != expected:
-                        reports.append(('iscas:net-names:' + c, bc, g, e1, cnt))
-                if not reports:
-                    reports.append(('iscas:net-names:combination', b, got, err, counter))
+                # (1) is it only the PORTS that carry reserved names?  keep every internal name
+                bp, cntp = apply_names(plain, sigs, plan, plain_reserved_ports=True)
+                gp, ep = bench_attempt(bp, inss)
+                if gp == expected:
+                    reports.append((PORT_SIG, b, got, err, counter))
+                else:
+                    # (2) internal nets: one category of hostile names at a time (ports never reserved)
+                    for c in cats:
+                        bc, cnt = apply_names(plain, sigs, plan, only=(c,), plain_reserved_ports=True)
+                        g, e1 = bench_attempt(bc, inss)
+                        if g != expected:
+                            reports.append(('iscas:net-names:' + c, bc, g, e1, cnt))
+                    if not reports:
+                        reports.append(('iscas:net-names:combination', bp, gp, ep, cntp))
             else:
                 reports.append(('iscas:trace' if plain_got is not None else 'iscas:rejected', b, got, err, counter))
             for sig, bb, g, e1, cnt in reports:
-                what = ('input_from_iscas_bench: the imported function depends on how the nets are called (%s): %s'
-                        % (sig.split(':')[-1], e1 if g is None else 'trace differs from the .bench semantics'))
+                if sig == PORT_SIG:
+                    what = 'input_from_iscas_bench: ' + PORT_WHAT + ' [%s]' % e1
+                else:
+                    what = ('input_from_iscas_bench: the imported function depends on how the nets are called (%s): %s'
+                            % (sig.split(':')[-1], e1 if g is None else 'trace differs from the .bench semantics'))
                 ctx.spec_violation(sig, what,
                                    {'family': 'bench-names', 'bench': bench_text(bb),
                                     'same_netlist_plain_names': bench_text(plain),
@@ -1430,6 +1538,77 @@ def run_bench_names(ctx):
             ctx.model_mismatch('input_from_iscas_bench and IO/Iscas.v import_bench disagree', p['rep'])
 
 
+def run_blif_names(ctx):
+    """BLIF: top-level ports and internal nets of the top model renamed from the hostile pool"""
+    n = 40 if ctx.tier == 'quick' else 600
+    for i in range(n):
+        rng = ctx.sub_rng('blif-names', i)
+        plain, _stats = gen_mix(rng, i)
+        ptop = plain[0]
+        ptop.clock = 'clk' if i % 2 == 0 else 'phi'
+        sigs0 = []
+        for x in ptop.signals():
+            if '[' not in x and x not in sigs0:
+                sigs0.append(x)
+        sigs, plan = name_plan(rng, sigs0, allow_clk=(ptop.clock != 'clk'))
+        ports = set(ptop.inputs + ptop.outputs)
+        merge = (i % 4 < 2)
+        bits = [[rng.randint(0, 1) for _ in ptop.inputs] for _ in range(7)]
+
+        def build(only=None, plain_reserved_ports=False):
+            ren, counter = make_names(sigs, plan, only, ports=ports, plain_reserved_ports=plain_reserved_ports)
+            return rename_top(plain, ren), counter
+        models, counter = build()
+        cats = sorted({plan[x][0] for x in sigs} - {'plain'})
+        for c in cats:
+            ctx.count('blif_name_category', c)
+        for x in sigs:
+            if plan[x][0] != 'plain':
+                ctx.count('blif_hostile_name_on', 'port' if x in ports else 'internal net')
+        got, err, expected = blif_attempt(models, merge, bits)
+        text = blif_text(models, models[0])
+        ctx.case(('blif-names', text, merge), nontrivial=any(len({r[k] for r in expected}) > 1
+                                                              for k in range(len(expected[0]))),
+                 sample={'family': 'blif-names', 'blif': text[:700], 'outputs': got[:3] if got else err}
+                 if i == 1 else None)
+        if got == expected:
+            continue
+        reports = []
+        pg, pe, pexp = blif_attempt(plain, merge, bits)
+        if pg == pexp:
+            mp, cntp = build(plain_reserved_ports=True)
+            gp, ep, xp = blif_attempt(mp, merge, bits)
+            if gp == xp:
+                reports.append((PORT_SIG, models, got, err, counter))
+            else:
+                for c in cats:
+                    mc, cnt = build(only=(c,), plain_reserved_ports=True)
+                    g, e1, x1 = blif_attempt(mc, merge, bits)
+                    if g != x1:
+                        reports.append(('blif:net-names:' + c, mc, g, e1, cnt))
+                if not reports:
+                    reports.append(('blif:net-names:combination', mp, gp, ep, cntp))
+        else:
+            reports.append(('blif:mix:trace' if pg is not None else 'blif:mix:rejected', plain, pg, pe, counter))
+        for sig, mm, g, e1, cnt in reports:
+            if sig == PORT_SIG:
+                what = 'input_from_blif: ' + PORT_WHAT + ' [%s]' % e1
+            else:
+                what = ('input_from_blif: the imported function depends on how the nets are called (%s): %s'
+                        % (sig.split(':')[-1], e1 if g is None else 'trace differs from the BLIF semantics'))
+            top = mm[0]
+            ig, og = port_groups(top.inputs, merge), port_groups(top.outputs, merge)
+            pos = {nm: k for k, nm in enumerate(top.inputs)}
+            ctx.spec_violation(sig, what, {
+                'family': 'blif-names', 'blif': blif_text(mm, top), 'merge_io_vectors': merge, 'clock_name': top.clock,
+                'same_netlist_plain_names': blif_text(plain, ptop),
+                'input_ports': [p_ for p_, _ in ig], 'output_ports': [p_ for p_, _ in og],
+                'inputs': [[sum(row[pos[nm]] << j for j, nm in enumerate(names)) for _, names in ig] for row in bits],
+                'expected': blif_attempt(plain, merge, bits)[2], 'got': g if g is not None else e1,
+                'tmp_counter_before_import': cnt, 'history': [],
+                'note': 'tmp<N> names are relative to the live temporary-name counter'})
+
+
 def run(ctx):
     run_covers(ctx)
     run_latches(ctx)
@@ -1438,6 +1617,7 @@ def run(ctx):
     run_vectors(ctx)
     run_sessions(ctx)
     run_mix(ctx)
+    run_blif_names(ctx)
     run_bench(ctx)
     run_bench_names(ctx)
 
